@@ -233,13 +233,20 @@ Definition set_heartbeat (st : ring) (t : Z) : ring := set_hb st t.
 Definition heartbeat (st : ring) : Z := r_hb st.
 
 (* ---- unblock ---- *)
-(* put_ordered::<i64>(p's index, make_header(len, ty)): both header words of the slot that starts at p *)
-Fixpoint put_hdr (sl : list slot) (p len ty : Z) : list slot :=
+(* stores into the slot that starts at position p *)
+Fixpoint upd_slot (sl : list slot) (p : Z) (f : slot -> slot) : list slot :=
   match sl with
-  | [] => [mkSlot p 8 len ty [] (-1) 0]
-  | s :: r => if s_pos s =? p then mkSlot p (s_span s) len ty (s_body s) (s_owner s) (s_seq s) :: r
-              else s :: put_hdr r p len ty
+  | [] => []
+  | s :: r => if s_pos s =? p then f s :: r else s :: upd_slot r p f
   end.
+Definition set_hdr (len ty : Z) (s : slot) : slot :=
+  mkSlot (s_pos s) (s_span s) len ty (s_body s) (s_owner s) (s_seq s).
+Definition set_len (len : Z) (s : slot) : slot :=
+  mkSlot (s_pos s) (s_span s) len (s_type s) (s_body s) (s_owner s) (s_seq s).
+Definition set_body (b : list Z) (s : slot) : slot :=
+  mkSlot (s_pos s) (s_span s) (s_len s) (s_type s) b (s_owner s) (s_seq s).
+(* put_ordered::<i64>(index of p, make_header(len, ty)): both header words *)
+Definition put_hdr (sl : list slot) (p len ty : Z) : list slot := upd_slot sl p (set_hdr len ty).
 
 (* while i >= limit { if word(i) != 0 return false; i -= 8 } true *)
 Fixpoint scan_back (fuel : nat) (ws : list (Z * Z)) (i limit : Z) : bool :=
